@@ -19,7 +19,8 @@ RULE = ("histories build -> replay*: training frames (1-8 rows, nulls, object/ca
         "scalings, rank reduction on/off, three null policies; follow-up frames = the training data, row subsets, duplications and permutations, "
         "frames missing levels, with and without pickling the spec; formulas with stateful transforms (center, scale, poly, bs, cr, cc, C with "
         "every contrast) are replayed on the implementation only; non-trivial = follow-up differs from training data; distinct by literal")
-EXPLANATION = ("Gallina model `replay` of spec reuse (rehydrated scoped terms, pinned category lists, _enforce_structure); theorems: the column names of "
+EXPLANATION = ("theorem C04_replay_is_rowwise: for pinned levels and no nulls, replay on ANY row selection = the selected rows of the replay, under the same names; "
+               "Gallina model `replay` of spec reuse (rehydrated scoped terms, pinned category lists, _enforce_structure); theorems: the column names of "
                "any successful replay are the recorded names in the recorded order, for every data set; replay never changes the spec (functional "
                "model); the model must return exactly the implementation's matrix, names and drop set (or error class) on every follow-up; row-wise "
                "behaviour, reproduction on the original data and pickling are checked directly on the implementation, including all stateful transforms")
